@@ -203,7 +203,8 @@ class Parser:
 
     def parse_sourced(self, s: str, loc: int, parsed_source: ParseResults) -> None:
         self.kconfig.linenr = lineno(loc, s)
-        path = expandvars(parsed_source.path)
+        # $(NAME) (macro or environment variable), ${NAME} and $NAME are expanded, like in the legacy parser
+        path = self._expand_string_vars(parsed_source.path)
         if parsed_source[0] in ["rsource", "orsource"]:
             path = join(dirname(self.file_stack[-1]), path)
 
